@@ -11,3 +11,4 @@ import FnGraphVerif.Model.Interrupt
 import FnGraphVerif.Model.Proto
 import FnGraphVerif.Model.Settle
 import FnGraphVerif.Model.StreamPoll
+import FnGraphVerif.Model.Spec
